@@ -7,6 +7,7 @@
 
 // @module ogre_std::ogre_alloc::ogre_array_pool_allocator
 // @sizes pool_proofs: atomic_p2=quick atomic_p4=quick fullsync_p2=quick fullsync_p4=quick atomic_p8=thorough fullsync_p8=thorough
+// @sizes pool_order_proofs: atomic_o2=quick fullsync_o2=quick
 // @sizes pool_drop_proofs: atomic_d2=quick fullsync_d2=quick atomic_d4=thorough
 #[allow(unused_imports)] use super::*;
 #[allow(unused_imports)] use crate::ogre_std::ogre_queues::atomic::atomic_move::{AtomicMove, verif_hooks::RingModel};
@@ -198,5 +199,41 @@ pub(crate) mod proofs {
         atomic_d2: AtomicMove, 2, 5;
         fullsync_d2: FullSyncMove, 2, 5;
         atomic_d4: AtomicMove, 4, 7;
+    }
+
+    // @group pool_order_proofs
+    macro_rules! pool_order_proofs { ($($modname:ident: $fl:ident, $p:expr, $unw:expr;)*) => { $( mod $modname {
+        use super::*;
+        const P: usize = $p;
+        type Pool = OgreArrayPoolAllocator<Watcher, $fl<u32, P>, P>;
+        static PROBE: std::sync::atomic::AtomicPtr<Pool> = std::sync::atomic::AtomicPtr::new(std::ptr::null_mut());
+        static FREE_AT_DROP: Ctr = Ctr::new(u32::MAX);
+        /// a payload whose destructor observes the pool it lives in
+        #[derive(Debug, Default)]
+        pub(crate) struct Watcher(pub u8);
+        impl Drop for Watcher { fn drop(&mut self) { let p = PROBE.load(SeqCst); if !p.is_null() { FREE_AT_DROP.store(free_count(unsafe { &*p }), SeqCst); } } }
+
+        // @props C05 C13 C01
+        #[kani::proof] #[kani::unwind($unw)] #[kani::stub(std::hint::spin_loop, noop)]
+        fn destructor_runs_before_the_slot_is_allocatable_again() {
+            // mechanism obligation: sequentially the order "destroy, then put the id on the free list" is unobservable from outside, but it is
+            // what keeps a concurrent alloc from being handed a slot whose old payload is still being destroyed -- so it is observed from INSIDE
+            let pool = Pool::new();
+            let s = any_pool_state::<P>();
+            kani::assume(s.free > 0);
+            force_pool(&pool, &s);
+            let (slot, id) = pool.alloc_ref().unwrap();
+            unsafe { std::ptr::write(slot, Watcher(1)); }
+            PROBE.store(&pool as *const Pool as *mut Pool, SeqCst);
+            pool.dealloc_id(id);
+            PROBE.store(std::ptr::null_mut(), SeqCst);
+            assert!(FREE_AT_DROP.load(SeqCst) == s.free - 1,                 "dealloc: while the payload's destructor runs, its slot is NOT yet on the free list (not allocatable)");
+            assert!(free_count(&pool) == s.free,                             "dealloc: afterwards it is");
+            kani::cover!(true, "end of harness reachable (vacuity guard)");
+        }
+    } )* } }
+    pool_order_proofs! {
+        atomic_o2: AtomicMove, 2, 5;
+        fullsync_o2: FullSyncMove, 2, 5;
     }
 }
